@@ -61,9 +61,19 @@ TTimeout ==
 
 (* ---- events ---- *)
 TBegin ==
-    /\ phase \in {"idle", "rest"} /\ IsOp("begin")
+    /\ phase \in {"idle", "rest"} /\ IsOp("begin") /\ e.api # "name2"
     /\ Check(t, l, "Clock", e.now = now)
     /\ Begin(e.qname, e.search, e.life, e.qtype, e.qclass) /\ Adv
+
+(* the second lookup of resolve_name(): for the candidate the first lookup settled on *)
+TBeginFollow ==
+    /\ phase = "rest" /\ IsOp("begin") /\ e.api = "name2"
+    /\ Check(t, l, "Clock", e.now = now)
+    /\ Check(t, l, "NameLookupSameCandidate", result[1] = "answer" /\ e.qname = result[2] /\ e.qtype = "A" /\ e.qclass = qclass)
+    /\ Check(t, l, "TimeoutPositive", e.life >= 1)
+    /\ BeginFollowUp(e.life) /\ Adv
+(* resolve_name() returned / raised: what it makes of the two answers is not part of this property *)
+TNameEnd == phase = "rest" /\ IsOp("nameend") /\ UNCHANGED vars /\ Adv
 
 TAdvance == phase = "rest" /\ IsOp("advance") /\ Advance(e.d) /\ Adv
 
@@ -126,7 +136,7 @@ TEnd ==
 
 TraceNext ==
     \/ TRequest \/ TServer \/ TTimeout
-    \/ TBegin \/ TAdvance \/ TSleep \/ TNoSleep \/ TOddSleep \/ TQuery \/ TLateQuery \/ TEarlyEnd \/ TExhausted \/ TEnd
+    \/ TBegin \/ TBeginFollow \/ TNameEnd \/ TAdvance \/ TSleep \/ TNoSleep \/ TOddSleep \/ TQuery \/ TLateQuery \/ TEarlyEnd \/ TExhausted \/ TEnd
 
 Accepted == Accepting(t, l)
 =============================================================================
